@@ -6,7 +6,8 @@
 //   C07, C08, C13: every data/zoom section written is reachable through the index.
 // For ALL section counts n and all block_size >= 2 the function terminates and returns (tree, levels, total) with
 //   tree   `wf(tree, levels, block_size, true)`  -- literally the precondition of rt_layout's write_rtreeindex,
-//          `cover_all(tree)`                     -- the builder's side of rt_search's `span_cover`,
+//          `cover_all(tree)`                     -- the builder's side of rt_search's `span_cover` (for an input sorted
+//                                                    by (chrom, start); everything else holds for ANY input order),
 //          `leaves_of(tree) == the input`        -- every section once, in order,
 //   levels == height(tree), total == n; n == 0 gives the single empty leaf with levels 0 (fix 2360e59).
 // The loop skeleton, the break condition, `levels += 1`, the `unwrap_or_else` default, the node constructor and the
@@ -49,6 +50,11 @@ verus! {
 //@sub /(\w+)\s*\.iter\(\)\s*\.map\(\|n\| \(n\.end_chrom_idx, n\.end_base\)\)\s*\.min\(\)/ => min_end_of_children(\1) min=0
 //@sub /(\w+)\.iter\(\)\s*\.map\(\|s\| \(s\.chrom, s\.end\)\)\s*\.last\(\)/ => last_end_of_sections(\1) min=0
 //@sub /(\w+)\s*\.iter\(\)\s*\.map\(\|n\| \(n\.end_chrom_idx, n\.end_base\)\)\s*\.last\(\)/ => last_end_of_children(\1) min=0
+//@sub /\bsections\s*\.iter\(\)\s*\.max_by_key\(\|(\w+)\| \1\.end\)/ => max_by_key_sections_end(sections) min=0
+//@sub /\bchildren\s*\.iter\(\)\s*\.max_by_key\(\|(\w+)\| \1\.end_base\)/ => max_by_key_children_end_base(children) min=0
+//@sub /\bsections\s*\.iter\(\)\s*\.(?:max|min)_by_key\(\|(\w+)\| [^|;()]*\)/ => max_by_key_sections_other(sections) min=0
+//@sub /\bchildren\s*\.iter\(\)\s*\.(?:max|min)_by_key\(\|(\w+)\| [^|;()]*\)/ => max_by_key_children_other(children) min=0
+//@sub /(max_by_key_\w+\(\w+\))\s*\.map\(\|(\w+)\| (\([^()]*\))\)\s*\.unwrap\(\)/ => (match \1 { Some(\2) => \3, None => unwrap_none_pair() }) min=0
 //@sub /\bsections\s*\.iter\(\)\s*\.map\(\|\w+\| [^|;]*?\)\s*\.\w+\(\)/ => last_end_of_sections(sections) min=0
 //@sub /\bchildren\s*\.iter\(\)\s*\.map\(\|\w+\| [^|;]*?\)\s*\.\w+\(\)/ => last_end_of_children(children) min=0
 //@sub /\bsections\.first\(\)/ => first_section(sections) min=0
